@@ -24,6 +24,7 @@ import (
 type sItem struct {
 	id    uuid.UUID
 	score float32
+	meta  map[string]string
 }
 
 type searchRes struct {
@@ -54,7 +55,7 @@ func (r *W3Run) startRead(h *histOp) {
 				var it pb.SearchResultItem
 				if e := protoUnmarshal(b, &it); e == nil {
 					id, _ := uuid.FromBytes(it.Id)
-					res.items = append(res.items, sItem{id, it.Score})
+					res.items = append(res.items, sItem{id, it.Score, it.Metadata})
 				}
 			}
 			return res, err
@@ -201,7 +202,7 @@ func execC09(raw json.RawMessage, wantLog bool) (out Outcome) {
 				}
 				for _, it := range l.items {
 					u, _ := uuid.FromBytes(it.Id)
-					union = append(union, sItem{u, it.Score})
+					union = append(union, sItem{u, it.Score, it.Metadata})
 				}
 			}
 			// legs that never executed (node down, partitioned, request dropped) also count as failed
@@ -289,7 +290,7 @@ func execC09(raw json.RawMessage, wantLog bool) (out Outcome) {
 						if p.Id == u {
 							rs, _ := p.Index().Search(context.Background(), amath.Vector(l.req.GetQuery()), uint(l.req.GetK()))
 							for _, it := range rs {
-								direct = append(direct, sItem{it.Id, it.Score})
+								direct = append(direct, sItem{it.Id, it.Score, it.Metadata})
 							}
 						}
 					}
@@ -306,6 +307,14 @@ func execC09(raw json.RawMessage, wantLog bool) (out Outcome) {
 					r.viol("leg-differs-from-direct-partition-searches", "SearchPartitions on n%d for %d partitions returned %d items; searching the same partition indexes directly and merging gives %d", tn.idx, len(l.req.GetPartitionIds()), len(l.items), len(direct))
 				}
 				out.Stat("legs_checked_against_direct_search", 1)
+			}
+			// every returned item carries the metadata it was inserted with (item i = version i+1)
+			for _, it := range res.items {
+				for i := 0; i < c.Items; i++ {
+					if idOf(i) == it.id && !metaEqual(it.meta, metaOf(i, i+1, "ins")) {
+						r.viol("wrong-metadata-in-result", "Dataset.Search on n%d returned id#%d with metadata %v, it was inserted with %v", op.Node, i, it.meta, metaOf(i, i+1, "ins"))
+					}
+				}
 			}
 			out.Stat("searches_checked_against_union", 1)
 			if len(myLegs) > 1 {
@@ -364,7 +373,8 @@ func shrinkC09(raw json.RawMessage) []json.RawMessage {
 // C10 / C11 (fault-free part): outcomes through any node and API path equal a sequential map
 
 type seqModel struct {
-	items map[int]int // id -> version
+	items map[int]int               // id -> version
+	meta  map[int]map[string]string // id -> metadata a sequential map would hold (insert sets, update merges)
 }
 
 func (m *seqModel) apply(kind string, id, ver int, dimOK bool) string {
@@ -378,18 +388,34 @@ func (m *seqModel) apply(kind string, id, ver int, dimOK bool) string {
 			return "exists"
 		}
 		m.items[id] = ver
+		if m.meta != nil {
+			m.meta[id] = metaOf(id, ver, "ins")
+		}
 		return "ok"
 	case "upd":
 		if !ok {
 			return "notfound"
 		}
 		m.items[id] = ver
+		if m.meta != nil {
+			merged := map[string]string{}
+			for k, v := range m.meta[id] {
+				merged[k] = v
+			}
+			for k, v := range metaOf(id, ver, "upd") {
+				merged[k] = v
+			}
+			m.meta[id] = merged
+		}
 		return "ok"
 	case "rem":
 		if !ok {
 			return "notfound"
 		}
 		delete(m.items, id)
+		if m.meta != nil {
+			delete(m.meta, id)
+		}
 		return "ok"
 	}
 	return "?"
@@ -498,7 +524,7 @@ func execRouting(prop string, raw json.RawMessage, wantLog bool) (out Outcome) {
 		}
 		r.s.runFor(3 * time.Second)
 		info := r.ds[0]
-		m := &seqModel{items: map[int]int{}}
+		m := &seqModel{items: map[int]int{}, meta: map[int]map[string]string{}}
 		kindOf := map[string]string{"ins": "ins", "upd": "upd", "rem": "rem", "bins": "ins", "bupd": "upd", "brem": "rem"}
 		for _, h := range r.hist {
 			k, ok := kindOf[h.op.K]
@@ -540,6 +566,10 @@ func execRouting(prop string, raw json.RawMessage, wantLog bool) (out Outcome) {
 		dumps := r.replicaDumps(info.id)
 		where := map[uuid.UUID]uuid.UUID{}
 		count := 0
+		byUUID := map[uuid.UUID]int{}
+		for id := range m.items {
+			byUUID[idOf(id)] = id
+		}
 		for pid, reps := range dumps {
 			for _, d := range reps {
 				for _, v := range d.Vertices {
@@ -548,6 +578,24 @@ func execRouting(prop string, raw json.RawMessage, wantLog bool) (out Outcome) {
 						return
 					}
 					where[v.Id] = pid
+					// the stored value and metadata are what a sequential map holds after the same operations
+					if id, ok := byUUID[v.Id]; ok {
+						ver := m.items[id]
+						want := vecOf(id, ver, info.dim)
+						same := len(want) == len(v.Vector)
+						for j := 0; same && j < len(want); j++ {
+							same = want[j] == v.Vector[j]
+						}
+						if !same {
+							r.viol("stored-value-differs-from-sequential-map", "id#%d in partition %s holds %v, a sequential map holds version %d = %v", id, shortG(pid), v.Vector, ver, want)
+							return
+						}
+						if !metaEqual(v.Metadata, m.meta[id]) {
+							r.viol("stored-metadata-differs-from-sequential-map", "id#%d (version %d) in partition %s holds metadata %v, a sequential map (insert sets, update merges, new keys win) holds %v", id, ver, shortG(pid), v.Metadata, m.meta[id])
+							return
+						}
+						r.out.Stat("stored_items_compared_with_sequential_map", 1)
+					}
 				}
 			}
 			count++
@@ -567,6 +615,18 @@ func execRouting(prop string, raw json.RawMessage, wantLog bool) (out Outcome) {
 	})
 	out.Nontrivial = out.Stats["outcomes_compared_with_sequential_map"] > 2
 	return
+}
+
+func sameMetaUnused(a, b map[string]string) bool {
+	if len(a) != len(b) {
+		return false
+	}
+	for k, v := range a {
+		if w, ok := b[k]; !ok || w != v {
+			return false
+		}
+	}
+	return true
 }
 
 func execC10(raw json.RawMessage, wantLog bool) Outcome { return execRouting("C10", raw, wantLog) }
